@@ -91,6 +91,8 @@ NP_KERNELS = [
                         kwargs_consts={'return_counts': True})),
         ('shift_data', dict(params=['L[L[Int]]', 'L[Int]', 'L[Int]'], ret='L[L[Int]]', param_names=['array', 'val_old', 'val_new'],
                             consts={'dtype': 'np.int64'}, facts={'np.issubdtype(dtype, np.integer)': True, "np.issubdtype('np.int64', np.integer)": True})),
+        ('shift_data', dict(lean_name='shift_data_1d', form='1d', params=['L[Int]', 'L[Int]', 'L[Int]'], ret='L[Int]', param_names=['array', 'val_old', 'val_new'],
+                            consts={'dtype': 'np.int64'}, facts={'np.issubdtype(dtype, np.integer)': True, "np.issubdtype('np.int64', np.integer)": True})),
         ('rename_by_index', dict(params=['L[L[Int]]'], ret='T[L[L[Int]],L[Int]]', param_names=['trajs'], consts={'return_permutation': True})),
         ('rename_by_population', dict(params=['L[L[Int]]'], ret='T[L[L[Int]],L[Int]]', param_names=['trajs'], consts={'return_permutation': True},
                                       xcalls={'unique': ('UtilsRelabel', 'unique_counts')},
@@ -101,6 +103,35 @@ NP_KERNELS = [
                           facts={'isinstance(trajs, StateTraj)': False}, self_locals=['_trajs', '_states'],
                           self_props={'nstates': 'len(self._states)'}, returns_self=['_trajs', '_states'],
                           drop_stmts=['dtype = np.result_type(*self._trajs)'])),
+    ]),
+    ('statetraj.py', 'StateTrajAcc', 'StateTraj', [
+        # the accessors of a plain StateTraj, as functions of the private attributes `_trajs` (index trajectories) and `_states`
+        ('states', dict(params=[], ret='L[Int]', selfattrs=[('_states', 'L[Int]')])),
+        ('nstates', dict(params=[], ret='Int', selfattrs=[('_states', 'L[Int]')], self_props={'states': 'self._states.copy()', 'nstates': 'len(self._states.copy())', 'index_trajs': '[traj.copy() for traj in self._trajs]', 'len_self': 'len(self._trajs)'})),
+        ('ntrajs', dict(params=[], ret='Int', selfattrs=[('_trajs', 'L[L[Int]]')], self_props={'states': 'self._states.copy()', 'nstates': 'len(self._states.copy())', 'index_trajs': '[traj.copy() for traj in self._trajs]', 'len_self': 'len(self._trajs)'})),
+        ('nframes', dict(params=[], ret='Int', selfattrs=[('_trajs', 'L[L[Int]]')])),
+        ('index_trajs', dict(params=[], ret='L[L[Int]]', selfattrs=[('_trajs', 'L[L[Int]]')])),
+        ('index_trajs_flatten', dict(params=[], ret='L[Int]', selfattrs=[('_trajs', 'L[L[Int]]')], self_props={'states': 'self._states.copy()', 'nstates': 'len(self._states.copy())', 'index_trajs': '[traj.copy() for traj in self._trajs]', 'len_self': 'len(self._trajs)'})),
+        ('trajs', dict(params=[], ret='L[L[Int]]', selfattrs=[('_trajs', 'L[L[Int]]'), ('_states', 'L[Int]')], self_props={'states': 'self._states.copy()', 'nstates': 'len(self._states.copy())', 'index_trajs': '[traj.copy() for traj in self._trajs]', 'len_self': 'len(self._trajs)'})),
+        ('trajs_flatten', dict(params=[], ret='L[Int]', selfattrs=[('_trajs', 'L[L[Int]]'), ('_states', 'L[Int]')], selfcalls=['trajs'])),
+    ]),
+    ('statetraj.py', 'LumpedAcc', 'LumpedStateTraj', [
+        # accessors and constructor of LumpedStateTraj as functions of the private attributes
+        ('microstate_trajs', dict(params=[], ret='L[L[Int]]', selfattrs=[('_trajs', 'L[L[Int]]'), ('_states', 'L[Int]'), ('_macrostates', 'L[Int]')], self_props={'states': 'self._macrostates.copy()', 'nstates': 'len(self._macrostates.copy())', 'microstates': 'self._states.copy()', 'nmicrostates': 'len(self._states.copy())', 'state_assignment': 'self._state_assignment.copy()', 'microstate_index_trajs': '[traj.copy() for traj in self._trajs]'})),
+        ('microstate_trajs_flatten', dict(params=[], ret='L[Int]', selfattrs=[('_trajs', 'L[L[Int]]'), ('_states', 'L[Int]'), ('_macrostates', 'L[Int]')],
+                                          selfcalls=['microstate_trajs'])),
+        ('_state_assignment_idx', dict(lean_name='state_assignment_idx', params=[], ret='L[Int]', selfattrs=[('_macrostates', 'L[Int]'), ('_state_assignment', 'L[Int]')],
+                                       self_props={'states': 'self._macrostates.copy()', 'nstates': 'len(self._macrostates.copy())', 'microstates': 'self._states.copy()', 'nmicrostates': 'len(self._states.copy())', 'state_assignment': 'self._state_assignment.copy()', 'microstate_index_trajs': '[traj.copy() for traj in self._trajs]'}, xcalls={'mh.shift_data': ('UtilsRelabel', 'shift_data_1d')})),
+        ('trajs', dict(params=[], ret='L[L[Int]]', selfattrs=[('_trajs', 'L[L[Int]]'), ('_states', 'L[Int]'), ('_state_assignment', 'L[Int]')], self_props={'states': 'self._macrostates.copy()', 'nstates': 'len(self._macrostates.copy())', 'microstates': 'self._states.copy()', 'nmicrostates': 'len(self._states.copy())', 'state_assignment': 'self._state_assignment.copy()', 'microstate_index_trajs': '[traj.copy() for traj in self._trajs]'})),
+        ('index_trajs', dict(params=[], ret='L[L[Int]]', selfattrs=[('_trajs', 'L[L[Int]]'), ('_states', 'L[Int]'), ('_macrostates', 'L[Int]'), ('_state_assignment', 'L[Int]')],
+                             self_props={'states': 'self._macrostates.copy()', 'nstates': 'len(self._macrostates.copy())', 'microstates': 'self._states.copy()', 'nmicrostates': 'len(self._states.copy())', 'state_assignment': 'self._state_assignment.copy()', 'microstate_index_trajs': '[traj.copy() for traj in self._trajs]'}, selfcalls=['_state_assignment_idx'])),
+        ('__init__', dict(lean_name='init', params=['L[L[Int]]', 'L[L[Int]]', 'Bool'], ret='T[Bool,L[Int],L[L[Int]],L[Int],L[Int]]',
+                          param_names=['macrotrajs', 'microtrajs', 'positive'], not_none=['microtrajs'],
+                          facts={'isinstance(macrotrajs, LumpedStateTraj)': False},
+                          self_locals=['positive', '_macrostates', '_trajs', '_states', '_state_assignment'], super_init=['_trajs', '_states'],
+                          self_props={'states': 'self._macrostates.copy()', 'nstates': 'len(self._macrostates.copy())', 'microstates': 'self._states.copy()', 'nmicrostates': 'len(self._states.copy())', 'state_assignment': 'self._state_assignment.copy()', 'microstate_index_trajs': '[traj.copy() for traj in self._trajs]'}, selfcalls=['microstate_trajs_flatten'], locals={'idx_first': 'Int'},
+                          selfattrs_local=[('_trajs', 'L[L[Int]]'), ('_states', 'L[Int]'), ('_macrostates', 'L[Int]')],
+                          returns_self=['positive', '_macrostates', '_trajs', '_states', '_state_assignment'])),
     ]),
     ('msm/msm.py', 'MsmEstimate', None, [
         ('_estimate_markov_model', dict(
@@ -183,6 +214,7 @@ NP_KERNELS = [
 # calls of translated functions of OTHER modules: dotted python name -> (namespace, function)
 XREF = {
     'mh.utils.unique': ('UtilsRelabel', 'unique'),
+    'mh.shift_data': ('UtilsRelabel', 'shift_data'),
     'mh.utils.rename_by_index': ('UtilsRelabel', 'rename_by_index'),
     'mh.utils.format_state_traj': None,
     'mh.msm.row_normalize_matrix': ('MsmNorm', 'row_normalize_matrix'),
@@ -286,7 +318,10 @@ class _Prep(ast.NodeTransformer):
     def __init__(self, sig):
         self.facts = sig.get('facts', {})                  # source text of an expression -> constant (type dispatch resolved by the signature table)
         self.self_locals = set(sig.get('self_locals', []))  # self.<x> assigned by the method: a local variable self_<x>
-        self.self_props = {k: ast.parse(v, mode='eval').body for k, v in sig.get('self_props', {}).items()}
+        self.self_props_raw = sig.get('self_props', {})
+        self.self_props = {k: ast.parse(v, mode='eval').body for k, v in sig.get('self_props', {}).items() if k != 'len_self'}
+        self.super_init = sig.get('super_init')            # `super().__init__(x)` sets these attributes (result of the translated base constructor)
+        self.selfcalls = set(sig.get('selfcalls', []))       # self.<prop> evaluated by calling the translated property of the same class
         self.kwargs_consts = sig.get('kwargs_consts')      # `**kwargs` at a call site replaced by these keyword constants
         self.drop = set(sig.get('drop_stmts', []))           # source text of statements that are dropped (e.g. the dtype bookkeeping)
         self.not_none = set(sig.get('not_none', []))
@@ -320,6 +355,8 @@ class _Prep(ast.NodeTransformer):
     def visit_Attribute(self, node):
         d = _dotted(node)
         if isinstance(node.value, ast.Name) and node.value.id == 'self':
+            if node.attr in self.selfcalls and isinstance(node.ctx, ast.Load):
+                return ast.copy_location(ast.Call(func=ast.Name(id='selfcall__' + node.attr, ctx=ast.Load()), args=[], keywords=[]), node)
             if node.attr in self.self_props and isinstance(node.ctx, ast.Load):
                 import copy
                 return self.visit(copy.deepcopy(self.self_props[node.attr]))
@@ -355,6 +392,8 @@ class _Prep(ast.NodeTransformer):
 
     def visit_Call(self, node):
         d = _dotted(node.func)
+        if d == 'len' and len(node.args) == 1 and isinstance(node.args[0], ast.Name) and node.args[0].id == 'self' and 'len_self' in self.self_props_raw:
+            return self.visit(ast.parse(self.self_props_raw['len_self'], mode='eval').body)
         if self.kwargs_consts is not None and any(k.arg is None for k in node.keywords):
             node.keywords = [k for k in node.keywords if k.arg is not None] + \
                 [ast.keyword(arg=kk, value=ast.Constant(value=vv)) for kk, vv in self.kwargs_consts.items()]
@@ -392,6 +431,15 @@ class _Prep(ast.NodeTransformer):
             return node.body if (t.value != neg) else (node.orelse or None)
         return node
 
+    def visit_Expr(self, node):
+        v = node.value
+        if isinstance(v, ast.Call) and isinstance(v.func, ast.Attribute) and v.func.attr == '__init__' and isinstance(v.func.value, ast.Call) \
+                and _dotted(v.func.value.func) == 'super' and self.super_init:
+            tgt = ast.Tuple(elts=[ast.Name(id='self_' + a_.lstrip('_'), ctx=ast.Store()) for a_ in self.super_init], ctx=ast.Store())
+            return ast.copy_location(ast.Assign(targets=[tgt], value=ast.Call(func=ast.Name(id='superinit__', ctx=ast.Load()),
+                                                                              args=[self.visit(a_) for a_ in v.args], keywords=[])), node)
+        return self.generic_visit(node)
+
     def visit_Raise(self, node):
         return node            # messages (format strings mentioning object attributes) are never evaluated
 
@@ -399,7 +447,7 @@ class _Prep(ast.NodeTransformer):
 def prepare(node, sig):
     """returns a FunctionDef whose positional parameters are exactly sig['param_names'] (when given)"""
     if not any(k in sig for k in ('objects', 'consts', 'flags', 'param_names', 'not_none', 'facts', 'self_locals', 'self_props', 'kwargs_consts',
-                                  'drop_stmts', 'returns_self')):
+                                  'drop_stmts', 'returns_self', 'selfcalls', 'super_init')):
         return node
     import copy
     node = copy.deepcopy(node)          # the same source function may be prepared several times (specialisations)
@@ -850,6 +898,14 @@ class NpFn(Fn):
                 if t != ('L', 'Int'):
                     raise Unsupported('%s: np.unique of %s' % (self.name, t))
                 return pre, '(npUnique %s, npUniqueCounts %s)' % (c, c), ('T', ('L', 'Int'), ('L', 'Int'))
+            if name == '_flatten_data' and len(args) == 1 and self.typeof(args[0]) == ('L', 'Int'):
+                c, t = sub(args[0])
+                return pre, '(%s, [(pyLen %s)])' % (c, c), ('T', ('L', 'Int'), ('L', 'Int'))          # 1-d ndarray: kwargs['data_shape'] = (n,)
+            if name == '_unflatten_data' and len(args) == 2 and self.sig.get('form') == '1d':
+                c, t = sub(args[0])
+                kwc, kwt = sub(args[1])
+                c2, t2 = eff('npReshape1 %s %s' % (c, kwc), ('L', 'Int'))
+                return pre, c2, t2
             if name == '_flatten_data' and len(args) == 1:
                 c, t = sub(args[0])
                 if t != ('L', ('L', 'Int')):
@@ -1009,6 +1065,8 @@ class NpFn(Fn):
                     raise Unsupported('%s: sum over axis %s of %s' % (self.name, ax, t))
                 if is_vec(t) and ax is None and t[1] == 'Rat':
                     return pre, '(npSum1 %s)' % c, 'Rat'
+                if is_vec(t) and ax is None and t[1] == 'Int':
+                    return pre, '(List.sum %s)' % c, 'Int'
                 raise Unsupported('%s: sum of %s' % (self.name, t))
             if name == 'np.max':
                 c, t = sub(args[0])
@@ -1146,6 +1204,41 @@ class NpFn(Fn):
                 c, t = eff('%s %s' % (en, ' '.join(cs)), rt)
                 return pre, c, t
             callee = None
+            if name == 'superinit__' and len(args) == 1:
+                callee = REGISTRY.get(('StateTrajInit', 'init'))
+                if callee is None:
+                    raise Unsupported('%s: the base constructor is not translated' % self.name)
+                c, t = sub(args[0])
+                c, t = eff('MsmVerif.Gen.StateTrajInit.init %s' % self.coerce(c, t, callee.ptypes[0]), callee.ret)
+                return pre, c, t
+            if name == 'mh.utils.find_first' and len(args) == 2:
+                a, ta = sub(args[0])
+                b, tb = sub(args[1])
+                if ta != 'Int' or tb != ('L', 'Int'):
+                    raise Unsupported('%s: find_first of %s, %s' % (self.name, ta, tb))
+                c, t = eff('MsmVerif.Gen.UtilsUtils.find_first %s %s' % (a, b), 'Int')
+                return pre, c, t
+            if name and name.startswith('selfcall__'):
+                attr_ = name[len('selfcall__'):]
+                callee = REGISTRY.get((self.ns, attr_)) or REGISTRY.get((self.ns, attr_.lstrip('_')))
+                if callee is None:
+                    raise Unsupported('%s: property %s is not translated' % (self.name, name))
+                mine = {a_ for a_, _t in self.selfattrs} | set(self.sig.get('self_locals', []))
+                cs = []
+                for a_, _t in callee.selfattrs:
+                    if a_ not in mine:
+                        raise Unsupported('%s: property %s needs self.%s' % (self.name, name, a_))
+                    cs.append('self_' + a_.lstrip('_'))
+                c, t = eff('MsmVerif.Gen.%s.%s %s' % (callee.ns, callee.lname_def(), ' '.join(cs)), callee.ret)
+                return pre, c, t
+            if name == 'np.concatenate' and len(args) == 1:
+                c, t = sub(args[0])
+                if not is_mat(t):
+                    raise Unsupported('%s: np.concatenate of %s' % (self.name, t))
+                return pre, '((%s).flatten)' % c, t[1]
+            if name == 'np.sum' and len(args) == 1 and not kw and self.typeof(args[0]) == ('L', 'Int'):
+                c, t = sub(args[0])
+                return pre, '(List.sum %s)' % c, 'Int'
             if name == 'mh.utils.format_state_traj' and len(args) == 1:
                 c, t = sub(args[0])          # the container is already a list of 1-d integer arrays (form fixed by the signature table)
                 return pre, c, t
